@@ -88,7 +88,9 @@ def _root(L, R, pol):
                 return ("EXACT", R)
             return _deep(L, R, pol, ())
         if kl == "L":
-            return _lists(L, ["L", [R]], pol, ())
+            # the right-hand root hash becomes the single record: its rule
+            # paths stay rooted at /
+            return _lists(L, ["L", [R]], pol, (), recpaths=[()])
         raise MergeErr("hash into %s" % kl)
     if kr == "L":
         if kl == "L":
@@ -192,7 +194,7 @@ def _nested(lv, rv, pol, path):
     return ("EXACT", rv)
 
 
-def _lists(L, R, pol, path):
+def _lists(L, R, pol, path, recpaths=None):
     if len(R[1]) == 0:
         return ("EXACT", L)
     if is_aoh(R):
@@ -224,7 +226,8 @@ def _lists(L, R, pol, path):
             idk = ["s", idkey]
         out = [x for x in L[1]]
         pats = [("EXACT", x) for x in out]
-        for rec in R[1]:
+        for ri, rec in enumerate(R[1]):
+            rpath = recpaths[ri] if recpaths else path + ("[%d]" % ri,)
             rd = {jk(k): v for k, v in rec[1]}
             if jk(idk) not in rd:
                 raise MergeErr("record lacks identity key")
@@ -235,7 +238,13 @@ def _lists(L, R, pol, path):
                     continue
                 ld = {jk(k): v for k, v in lrec[1]}
                 if jk(idk) in ld:
-                    if _cross_equal(ld[jk(idk)], idv):
+                    if _cross_equal(ld[jk(idk)], idv) or (
+                            ld[jk(idk)] != idv and kind(idv) == "S"
+                            and kind(ld[jk(idk)]) == "S"
+                            and len(idv) > 1 and len(ld[jk(idk)]) > 1
+                            and str(idv[1]) == str(ld[jk(idk)][1])):
+                        # 1 vs "1": identity values are compared after
+                        # typing their text; no document promises either way
                         raise Unspec("identity values equal across types")
                     if ld[jk(idk)] == idv:
                         hit = i
@@ -246,7 +255,7 @@ def _lists(L, R, pol, path):
             else:
                 if pats[hit][0] != "EXACT":
                     raise Unspec("two right-hand records share an identity")
-                pats[hit] = _deep(out[hit], rec, pol, path + ("[]",))
+                pats[hit] = _deep(out[hit], rec, pol, rpath)
         return ("SEQ", pats)
     mode = pol.mode("arrays", path)
     if mode == "left":
